@@ -410,6 +410,8 @@ pub struct World {
     pub out: CaseOut,
     pub accepted: usize,
     pub refused: usize,
+    /// the harness's own record of the allowlist contents (script ids), updated by every `allow` op
+    pub allow_set: BTreeSet<u64>,
 }
 
 /// script universe of the close ops: sid 1..=4 wallet p2wpkh at index sid, 5..=6 wallet p2sh-p2wpkh at
@@ -461,6 +463,7 @@ impl World {
             out: CaseOut::default(),
             accepted: 0,
             refused: 0,
+            allow_set: BTreeSet::new(),
         }
     }
 
@@ -560,7 +563,9 @@ impl World {
                         .iter()
                         .map(|sid| Address::from_script(&script_of(node, *sid), Network::Testnet).unwrap().to_string())
                         .collect();
-                    let _ = node.set_allowlist(&list);
+                    if node.set_allowlist(&list).is_ok() {
+                        self.allow_set = a.iter().cloned().collect();
+                    }
                 }
                 "ok".into()
             }
@@ -695,7 +700,8 @@ impl World {
         }
     }
 
-    /// independent evaluation of "wallet-derivable (at some index 1..8, any address type) or allowlisted"
+    /// independent evaluation, at the time of the call, of "wallet-derivable (at some index 1..8, any
+    /// address type) or allowlisted"; used for upfront and non-upfront holder scripts alike
     fn dest_known(&self, node: &Node, sid: u64) -> bool {
         let script = script_of(node, sid);
         for i in 1..=8u32 {
@@ -705,11 +711,9 @@ impl World {
                 }
             }
         }
-        let allow = node.allowlist().unwrap_or_default();
-        match Address::from_script(&script, Network::Testnet) {
-            Ok(a) => allow.iter().any(|s| s.ends_with(&a.to_string())),
-            Err(_) => false,
-        }
+        // allowlist membership *now* (at signing time), from the harness's own record of what it put on
+        // the allowlist -- not from the node under test
+        self.allow_set.contains(&sid)
     }
 
     fn op_chain(&mut self, a: &[u64]) -> String {
